@@ -335,7 +335,7 @@ fn reader_loop(shared: Arc<Shared>, tid: usize, signed: bool, seed: u64, problem
 pub fn run(ctx: &Ctx, rep: &mut Report) {
     install_callback();
     verif::reset_failpoint_hits();
-    let n = if ctx.is_miri() { ctx.cases(1, 16) } else { ctx.cases(160, 6_000) };
+    let n = if ctx.is_miri() { ctx.cases(1, 16) } else { ctx.cases(160, 1_600) };
     let gens = if ctx.is_miri() { 6 } else { 300 };
     // generation catalogs and key sets are built once per shard
     let catalogs: Vec<Arc<QCatalog>> = (0..gens as u64).map(|g| Arc::new(gen_catalog_for(g))).collect();
